@@ -31,10 +31,14 @@ class Line(object):
     """one protocol line.  kind 'corr': driver output must equal `expect` (the implementation's
     canonical output).  kind 'pred': the driver evaluates a property predicate on the
     implementation's output; `expect` is 'ok'."""
-    __slots__ = ("kind", "op", "args", "expect", "note")
+    __slots__ = ("kind", "op", "args", "expect", "note", "canon")
 
-    def __init__(self, kind, op, args, expect="ok", note=""):
+    def __init__(self, kind, op, args, expect="ok", note="", canon=None):
         self.kind, self.op, self.args, self.expect, self.note = kind, op, args, expect, note
+        # `canon` (corr lines): where the properties call an order irrelevant (lines of files that represent sets,
+        # entries of a lexicon) both answers are brought into a canonical order before they are compared - a Python
+        # function str -> str, or the name of a driver operation that canonicalises (second pass)
+        self.canon = canon
 
     def text(self):
         return "\t".join([self.op] + list(self.args))
@@ -219,15 +223,36 @@ def run_cases(cases, result, sample_every=None, batch=4000):
                 lines.append(l.text())
         outs = driver.run_lines(lines)
         i = 0
+        second = []
         for c in buf:
             for l in c.lines:
                 got = outs[i]
                 i += 1
                 if got != l.expect:
+                    if l.kind == "corr" and l.canon is not None and not got.startswith("ERR") and not l.expect.startswith("ERR"):
+                        if callable(l.canon):
+                            try:
+                                if l.canon(got) == l.canon(l.expect):
+                                    continue
+                            except Exception:
+                                pass
+                        else:
+                            second.append((c, l, got))
+                            continue
                     if l.kind == "pred":
                         result.pred_fail.append((c, l, got))
                     else:
                         result.corr_fail.append((c, l, got))
+        if second:
+            qs = []
+            for c, l, got in second:
+                qs.append(l.canon + "\t" + got.replace(" # ", "\t"))
+                qs.append(l.canon + "\t" + l.expect.replace(" # ", "\t"))
+            cs = driver.run_lines(qs)
+            for k, (c, l, got) in enumerate(second):
+                a, b = cs[2 * k], cs[2 * k + 1]
+                if a != b or a.startswith("BAD") or a.startswith("FAIL"):
+                    result.corr_fail.append((c, l, got))
         buf = []
         nlines = 0
 
